@@ -83,3 +83,17 @@ package v1alpha1
 //@ func Resource props C18, C07
 //@   trusted "generated helper: builds a schema.GroupResource value from a constant group and the argument"
 //@   pure
+
+// Defaulting runs before the admission normaliser: it may fill in a missing strategy, and nothing else of a policy -- in
+// particular it leaves every rule exactly as submitted (C17: the stored rules are the normalised SUBMITTED rules).
+//@ const SDP = obj.Spec.DispatchPolicies
+//@ func SetDefaults_UpstreamCluster props C17
+//@   requires [obj] obj != nil
+//@   modifies obj.Spec
+//@   ensures [rules_untouched] len(SDP) == old(len(SDP)) && forall k int :: {SDP[k]} 0 <= k && k < len(SDP) ==> SDP[k].Rules === old(SDP[k].Rules) && SDP[k].UpstreamSubset === old(SDP[k].UpstreamSubset) && SDP[k].FlowControlSchemaName == old(SDP[k].FlowControlSchemaName)
+//@   ensures [strategy_defaulted] forall k int :: {SDP[k]} 0 <= k && k < len(SDP) ==> SDP[k].Strategy == (len(old(SDP[k].Strategy)) == 0 ? RoundRobin : old(SDP[k].Strategy))
+//@   loop 0: invariant [bounds] 0 <= idx && idx <= len(SDP) && len(SDP) == old(len(SDP))
+//@   loop 0: invariant [frame] forall x *UpstreamCluster :: {x.Spec} x != obj ==> x.Spec === old(x.Spec)
+//@   loop 0: invariant [rules_untouched] forall k int :: {SDP[k]} 0 <= k && k < len(SDP) ==> SDP[k].Rules === old(SDP[k].Rules) && SDP[k].UpstreamSubset === old(SDP[k].UpstreamSubset) && SDP[k].FlowControlSchemaName == old(SDP[k].FlowControlSchemaName)
+//@   loop 0: invariant [done] forall k int :: {SDP[k]} 0 <= k && k < idx ==> SDP[k].Strategy == (len(old(SDP[k].Strategy)) == 0 ? RoundRobin : old(SDP[k].Strategy))
+//@   loop 0: invariant [todo] forall k int :: {SDP[k]} idx <= k && k < len(SDP) ==> SDP[k].Strategy == old(SDP[k].Strategy)
